@@ -145,19 +145,7 @@ def run(ctx):
     ctx.rule("C19.R1", "on every Err edge of parsing / evaluation / validation / input parsing the process must reach exit(!=0) without emitting outputs; outputs are written only after success; nothing exits non-zero after writing outputs", floor=8)
     is_sink = lambda d: d == "blots::write_outputs"
     # (i) evaluate_source and its closures
-    n_eval = 0
-    for name, f in sorted(cli.mir.items()):
-        if not (name == "blots::evaluate_source" or name.startswith("blots::evaluate_source::{closure")):
-            continue
-        fn = M.Fn(f, name)
-        k = 0
-        for b in fn.call_blocks():
-            c = fn.callee(b) or ""
-            if c in ("blots_core::expressions::evaluate_pairs", "blots_core::expressions::validate_portable_value"):
-                n_eval += 1
-                ok, d = err_must_exit(fn, b, is_sink)
-                ctx.inst("C19.R1", "%s#%s[%d]" % (name.replace("blots::", ""), H.last(c), k), ok, d, fn.loc(b))
-                k += 1
+    evaluation_errors_are_fatal(ctx, "C19.R1", cli)
     es = M.Fn(cli.mir_fn("blots::evaluate_source"), "blots::evaluate_source")
     gp = es.calls_to("blots_core::parser::get_pairs")
     if not gp:
@@ -435,3 +423,20 @@ def run(ctx):
                 lits = [x["v"] for x in H.walk(rng) if H.kind(x) == "Lit"]
                 ok = lits == ["1"]
             ctx.inst("C19.R4", "builder#strip-hash", ok, "field name = text[1..]: %s" % ok, H.loc(a["body"]))
+
+
+def evaluation_errors_are_fatal(ctx, rid, cli):
+    """in the CLI's statement loop every Err of evaluate_pairs / validate_portable_value ends the run with a non-zero status (shared
+    with C11: an element operation that fails must fail the program, also inside an `output` declaration)"""
+    is_sink = lambda d: d == "blots::write_outputs"
+    for name, f in sorted(cli.mir.items()):
+        if not (name == "blots::evaluate_source" or name.startswith("blots::evaluate_source::{closure")):
+            continue
+        fn = M.Fn(f, name)
+        k = 0
+        for b in fn.call_blocks():
+            c = fn.callee(b) or ""
+            if c in ("blots_core::expressions::evaluate_pairs", "blots_core::expressions::validate_portable_value"):
+                ok, d = err_must_exit(fn, b, is_sink)
+                ctx.inst(rid, "%s#%s[%d]" % (name.replace("blots::", ""), H.last(c), k), ok, d, fn.loc(b))
+                k += 1
